@@ -1,23 +1,23 @@
 import Verif.Model.Carrier
 import Verif.Lemmas.Await
-import Verif.Props.C02
-import Verif.Props.C05
-import Verif.Props.C11
-import Verif.Props.C12
-import Verif.Props.C17
+import Verif.Lemmas.Rpc
+import Verif.Lemmas.StdioIn
+import Verif.Lemmas.HttpDecide
+import Verif.Lemmas.SseReq
 
 /-! # Composition lemmas for C15
 
 Bookkeeping (`zipD`, `flatMap` / `map`, `strip` on clean text) and the four per-carrier
-compositions of the existing property theorems:
+compositions.  They rest on the lemma-level facts behind the carriers' property theorems (not on
+the `Props` statements, whose shape follows each property's wording):
 
-* stdio: `c05_delivers_good_lines` + `c05_accepted_message`;
-* HTTP + JSON: `c11_json_body_messages` + `c11_every_request_processed`;
-* HTTP + SSE: `c11_sse_body_messages` + `c11_every_request_processed`;
-* legacy SSE: `c12_stream_delivers_rendered` + `run_sched` (the lemma behind `c12_race_exactly_once`
-  / `c12_serial_requests`);
-* the real codec: `c02_wire_roundtrip`, `c02_wire_single_line`, `c17_dec_enc_any_style`;
-* helpers: `loop_complete`.
+* stdio: `runChunks_valid`, `split_render`, `processLine_lineOf` (behind `c05_delivers_good_lines`);
+* Streamable HTTP: `internal_passthrough`, `outcome_of_internal_ne`, `run_outs`, `routeAll_batch`,
+  `sseMsgs_render` (behind `c11_json_body_messages`, `c11_sse_body_messages`, `c11_every_request_processed`);
+* legacy SSE: `runChunks_eq`, `splitLF_join`, `stepLines_events` (behind `c12_stream_delivers_rendered`)
+  and `run_sched` (behind `c12_race_exactly_once`);
+* the real codec: `dec_enc`, `enc_noBreak` (C17), `parse_emit_of_ok`, `built_ok`, `wf_emit` (C02);
+* helpers: `loop_complete` (C01).
 -/
 set_option linter.unusedSimpArgs false
 set_option linter.unusedVariables false
@@ -100,7 +100,7 @@ theorem cutAt_flatten {α : Type} (l : List α) (cuts : List Nat) (pos : Nat) : 
 
 /-! ## stdio -/
 section stdio
-open Verif.Model.StdioIn Verif.Lemmas.StdioIn Verif.Props.C05
+open Verif.Model.StdioIn Verif.Lemmas.StdioIn
 
 theorem isScalar_toNat (c : Char) : isScalar c.toNat = true := by
   have := c.valid
@@ -149,60 +149,73 @@ theorem strip_codes (t : List Char) (h : CleanWire t) : strip (codes t) = codes 
     simp only [codes, List.map_eq_nil_iff] at he
     simp [he] at hh
 
-theorem stdio_good (cfg : StdioIn.Cfg μ) (W : Wire σ μ) (s : σ) (b : Bool) (h : StdioDecodes cfg W s) :
-    good cfg ⟨codes (W.enc s), b⟩ = some (W.obs s) := by
+/-- what the reader delivers for the line of one message -/
+theorem stdio_line (cfg : StdioIn.Cfg μ) (W : Wire σ μ) (s : σ) (b : Bool) (h : StdioDecodes cfg W s) :
+    delivered (processLine cfg b (codes (W.enc s))) = [W.obs s] := by
   obtain ⟨hc, hp⟩ := h
   obtain ⟨h1, h2⟩ := strip_codes _ hc
-  simp [good, h1, h2, hp]
+  simp [processLine, h1, h2, hp, route_delivered]
+
+/-- the read stream is the per-line contribution of the written lines, whatever the chunking -/
+theorem stdio_lines (cfg : StdioIn.Cfg μ) (items : List Item) (chunks : List (List Nat))
+    (hi : ∀ it ∈ items, ValidItem it) (hc : chunks.flatten = encode (render items)) :
+    delivered (runChunks cfg init chunks).2 = items.flatMap (fun it => delivered (processLine cfg true it.text)) := by
+  have h := runChunks_valid cfg true (render items) chunks (validText_render items hi) hc
+  have hinit : ({ init with batching := true } : St) = init := by simp [init, Verif.Model.Batching.supportsBatching]
+  rw [hinit] at h
+  rw [h, split_render items (fun it h => (hi it h).2), delivered_flatMap]
+  simp only [List.flatMap_map, processLine_lineOf]
 
 theorem stdio_transcript (cfg : StdioIn.Cfg μ) (W : Wire σ μ) (conv : List (Exchange σ)) (crlf : List Bool)
     (chunks : List (List Nat)) (hdec : ∀ s ∈ msgsOf conv, StdioDecodes cfg W s)
     (hc : chunks.flatten = stdioBytes W conv crlf) :
     stdioObserve cfg chunks = expected W conv := by
   unfold stdioObserve expected
-  rw [c05_delivers_good_lines cfg (stdioItems W (msgsOf conv) crlf) chunks ?_ hc]
+  rw [stdio_lines cfg (stdioItems W (msgsOf conv) crlf) chunks ?_ hc]
   · unfold stdioItems
-    rw [zipD_flatMap false _ (accepted cfg) (fun s => [W.obs s])]
+    rw [zipD_flatMap false _ _ (fun s => [W.obs s])]
     · simp [List.map_eq_flatMap, List.flatMap_assoc]
     · intro s hs b _
-      exact c05_accepted_message cfg _ _ (stdio_good cfg W s b (hdec s hs))
+      exact stdio_line cfg W s true (hdec s hs)
   · intro it hit
     obtain ⟨s, hs, b, _, rfl⟩ := zipD_mem _ _ _ _ it hit
     exact ⟨validText_codes _, lf_notin_codes _ (hdec s hs).1.1⟩
-
 end stdio
 
 /-! ## Streamable HTTP -/
 section http
-open Verif.Model.HttpDecide Verif.Props.C11 Verif.Model.Sse
+open Verif.Model.HttpDecide Verif.Model.Sse
+
+/-- an accepted JSON or SSE answer that contains messages: exactly those are delivered -/
+theorem passthrough (dec : Dec μ) (id : Option Id) (r : Resp) (hs : r.status < 400)
+    (hct : r.ctype = .json ∨ r.ctype = .sse) (hne : contained dec r ≠ []) :
+    outcome dec id (.resp r) = (contained dec r).map .pass := by
+  have hi := internal_passthrough dec id r hs hne (by rcases hct with h | h <;> simp [h])
+  rw [outcome_of_internal_ne dec id _ (by simp [hi, hne]), hi]
 
 theorem json_outcome (dec : Dec μ) (W : Wire σ μ) (c : PostChoice) (e : Exchange σ)
     (hs : c.status < 400) (he : e.notifs = []) (hd : HttpDecodes dec W e.reply) :
     outcome dec (jsonPost W c e).1.id (jsonPost W c e).2 = e.msgs.map (fun s => .pass (W.http s)) := by
   obtain ⟨_, h1, h2⟩ := hd
-  have := c11_json_body_messages dec c.id
-    { status := c.status, ctype := .json, session := c.session, body := { text := jsonBody W c e, utf8 := true } }
-    hs rfl rfl
+  have hcont : contained dec (⟨c.status, .json, c.session, ⟨jsonBody W c e, true⟩⟩ : Resp) = [W.http e.reply] := by
+    cases hb : c.batch <;> simp [contained, jsonBody, hb, h1, h2, routeAll, routeList]
   simp only [jsonPost, Exchange.msgs, he, List.nil_append, List.map_cons, List.map_nil]
-  cases hb : c.batch with
-  | false => exact this.1 _ (by simp [jsonBody, hb, h1])
-  | true => exact this.2 [W.http e.reply] (by simp) (by simp [jsonBody, hb, h2])
+  rw [passthrough dec c.id _ hs (Or.inl rfl) (by simp [hcont]), hcont]
+  rfl
 
 theorem httpJson_transcript (dec : Dec μ) (W : Wire σ μ) (s0 : Option String) (conv : List (Exchange σ))
     (choices : List PostChoice) (hexp : Expressible W .httpJson conv)
     (hst : ∀ c ∈ choices, c.status < 400) (hdec : ∀ s ∈ msgsOf conv, HttpDecodes dec W s) :
     httpObserve dec s0 (zipD PostChoice.dflt (jsonPost W) conv choices) = expected W conv := by
   unfold httpObserve
-  rw [(c11_every_request_processed dec s0 _).1,
+  rw [run_outs dec s0 _,
     zipD_flatMap PostChoice.dflt (jsonPost W) _ (fun e => e.msgs.map (fun s => Out.pass (W.http s))), expected_eq]
   · simp [List.map_flatMap, httpSeen, Wire.http, Function.comp_def]
   · intro e he c hc
-    refine json_outcome dec W c e ?_ (hexp e he) (hdec _ ?_)
-    · rcases hc with rfl | hc
-      · decide
-      · exact hst c hc
-    · simp only [msgsOf, List.mem_flatMap]
-      exact ⟨e, he, by simp [Exchange.msgs]⟩
+    refine json_outcome dec W c e ?_ (hexp e he) (hdec _ (mem_msgsOf conv e _ he (by simp [Exchange.msgs])))
+    rcases hc with rfl | hc
+    · decide
+    · exact hst c hc
 
 theorem okVal_clean (t : List Char) (sp : Bool) (h : CleanWire t) : okVal t sp = true := by
   obtain ⟨h1, h2, h3, _⟩ := h
@@ -213,49 +226,79 @@ theorem conformant_sseEvent (W : Wire σ μ) (c : EvChoice) (s : σ) (hc : c.ok 
   simp only [EvChoice.ok, Bool.and_eq_true] at hc
   have hv := okVal_clean _ c.dataChoice.space hw
   cases hn : c.name <;> cases hsp : c.nameChoice.space <;>
-    simp [Conformant, sseEvent, okData, hv, hc.1, hc.2, hn, EvName.str, hsp] <;> decide
+    simp [Conformant, sseEvent, okData, hv, hc.1.1.1, hc.1.1.2, hc.1.2, hn, EvName.str, hsp] <;> decide
 
 theorem strip_cleanWire (t : List Char) (h : CleanWire t) : Sse.strip t = t := by
   apply Verif.Model.Sse.strip_id
   obtain ⟨_, _, h3, h4⟩ := h
   simp [okName, h3, h4]; decide
 
-theorem sseEvent_msgs (dec : Dec μ) (W : Wire σ μ) (c : EvChoice) (s : σ) (hd : HttpDecodes dec W s) :
-    sseEventMsgs dec (effType (sseEvent W c s).name, joinNl (sseEvent W c s).data) = [W.http s] := by
+/-- the messages one event of a body hands over (`sseMsgs_render`'s summand) -/
+def evMsgs (dec : Dec μ) (e : Event) : List (Msg μ) :=
+  if e.data = [] then [] else sseEventMsgs dec (effType e.name, joinNl e.data)
+
+theorem evMsgs_sseEvent (dec : Dec μ) (W : Wire σ μ) (c : EvChoice) (s : σ) (hd : HttpDecodes dec W s) :
+    evMsgs dec (sseEvent W c s) = [W.http s] := by
   obtain ⟨hw, h1, _⟩ := hd
   have hty : effType c.name.str = "message".toList ∨ effType c.name.str = "response".toList := by
     cases hn : c.name <;> simp [EvName.str, effType, sMessage] <;> decide
-  simp only [sseEventMsgs, hty, if_true, sseEvent, joinNl, strip_cleanWire _ hw, hw.2.2.1, h1, routeAll]
+  simp only [evMsgs, sseEventMsgs, sseEvent, joinNl]
+  rw [if_neg (by simp), if_pos hty]
+  simp only [strip_cleanWire _ hw, hw.2.2.1, if_true, h1, routeAll]
+
+/-- an interleaved event hands over nothing, for every decoder -/
+theorem evMsgs_noise (dec : Dec μ) (e : Event) (h : isNoise e = true) : evMsgs dec e = [] := by
+  simp only [isNoise, Bool.and_eq_true, Bool.or_eq_true, decide_eq_true_eq, List.isEmpty_iff] at h
+  rcases h.2 with hd | ht
+  · simp [evMsgs, hd]
+  · simp only [evMsgs, sseEventMsgs]
+    split
+    · rfl
+    · rw [if_neg (by intro h'; rcases h' with h' | h'; exact ht.1 h'; exact ht.2 h')]
+
+theorem evMsgs_noises (dec : Dec μ) (l : List Event) (h : l.all isNoise = true) : l.flatMap (evMsgs dec) = [] := by
+  simp only [List.all_eq_true] at h
+  simp only [List.flatMap_eq_nil_iff]
+  exact fun e he => evMsgs_noise dec e (h e he)
 
 theorem sse_outcome (dec : Dec μ) (W : Wire σ μ) (c : SseBodyChoice) (e : Exchange σ)
     (hok : c.ok = true) (hd : ∀ s ∈ e.msgs, HttpDecodes dec W s) :
     outcome dec (sseBodyPost W c e).1.id (sseBodyPost W c e).2 = e.msgs.map (fun s => .pass (W.http s)) := by
   simp only [SseBodyChoice.ok, Bool.and_eq_true, decide_eq_true_eq, List.all_eq_true] at hok
-  let f : Event → Msg μ := fun e' =>
-    ((sseEventMsgs dec (effType e'.name, joinNl e'.data)).head?).getD (W.http e.reply)
-  have hev : ∀ e' ∈ zipD EvChoice.dflt (sseEvent W) e.msgs c.evs,
-      ∃ s ∈ e.msgs, ∃ ch, (ch = EvChoice.dflt ∨ ch ∈ c.evs) ∧ e' = sseEvent W ch s := zipD_mem _ _ _ _
+  obtain ⟨⟨hst, hevs⟩, htr⟩ := hok
   have hch : ∀ ch, (ch = EvChoice.dflt ∨ ch ∈ c.evs) → ch.ok = true := by
     intro ch h; rcases h with rfl | h
     · decide
-    · exact hok.2 ch h
-  have := c11_sse_body_messages dec c.post.id
-    { status := c.post.status, ctype := .sse, session := c.post.session, body := { text := sseBodyText W c e, utf8 := true } }
-    (zipD EvChoice.dflt (sseEvent W) e.msgs c.evs) c.eols c.tail f hok.1 rfl
-    (by intro e' he'
-        obtain ⟨s, hs, ch, hc, rfl⟩ := hev e' he'
-        exact conformant_sseEvent W ch s (hch ch hc) (hd s hs).1)
-    (by intro e' he'
-        obtain ⟨s, hs, ch, hc, rfl⟩ := hev e' he'
-        simp only [f, sseEvent_msgs dec W ch s (hd s hs)]
-        rfl)
-    (zipD_ne_nil _ _ _ _ (by simp [Exchange.msgs]))
-    rfl
+    · exact hevs ch h
+  have hconf : ∀ e' ∈ sseBodyEvents W c e, Conformant e' = true := by
+    intro e' he'
+    simp only [sseBodyEvents, List.mem_append, List.mem_flatMap, id] at he'
+    rcases he' with ⟨l, hl, he'⟩ | he'
+    · obtain ⟨s, hs, ch, hc, rfl⟩ := zipD_mem _ _ _ _ l hl
+      have hk := hch ch hc
+      simp only [sseEvents, List.mem_append, List.mem_singleton] at he'
+      rcases he' with he' | rfl
+      · simp only [EvChoice.ok, Bool.and_eq_true, List.all_eq_true] at hk
+        have := hk.2 e' he'
+        simp only [isNoise, Bool.and_eq_true] at this
+        exact this.1
+      · exact conformant_sseEvent W ch s hk (hd s hs).1
+    · have := htr e' he'
+      simp only [isNoise, Bool.and_eq_true] at this
+      exact this.1
+  have hcont : contained dec (⟨c.post.status, .sse, c.post.session, ⟨sseBodyText W c e, true⟩⟩ : Resp)
+      = e.msgs.map W.http := by
+    simp only [contained, sseBodyText, sseMsgs_render dec _ c.eols c.tail hconf]
+    change (sseBodyEvents W c e).flatMap (evMsgs dec) = _
+    simp only [sseBodyEvents, List.flatMap_append, evMsgs_noises dec _ (List.all_eq_true.mpr htr), List.append_nil,
+      List.flatMap_assoc, id]
+    rw [zipD_flatMap EvChoice.dflt (sseEvents W) _ (fun s => [W.http s]), List.map_eq_flatMap]
+    intro s hs ch hc
+    have hk := hch ch hc
+    simp only [EvChoice.ok, Bool.and_eq_true] at hk
+    simp [sseEvents, List.flatMap_append, evMsgs_noises dec _ hk.2, evMsgs_sseEvent dec W ch s (hd s hs)]
   simp only [sseBodyPost]
-  rw [this]
-  apply zipD_map
-  intro s hs ch hc
-  simp only [f, sseEvent_msgs dec W ch s (hd s hs)]
+  rw [passthrough dec c.post.id _ hst (Or.inr rfl) (by simp [hcont, Exchange.msgs]), hcont, List.map_map]
   rfl
 
 theorem httpSse_transcript (dec : Dec μ) (W : Wire σ μ) (s0 : Option String) (conv : List (Exchange σ))
@@ -263,22 +306,19 @@ theorem httpSse_transcript (dec : Dec μ) (W : Wire σ μ) (s0 : Option String) 
     (hdec : ∀ s ∈ msgsOf conv, HttpDecodes dec W s) :
     httpObserve dec s0 (zipD SseBodyChoice.dflt (sseBodyPost W) conv choices) = expected W conv := by
   unfold httpObserve
-  rw [(c11_every_request_processed dec s0 _).1,
+  rw [run_outs dec s0 _,
     zipD_flatMap SseBodyChoice.dflt (sseBodyPost W) _ (fun e => e.msgs.map (fun s => Out.pass (W.http s))), expected_eq]
   · simp [List.map_flatMap, httpSeen, Wire.http, Function.comp_def]
   · intro e he c hc
-    refine sse_outcome dec W c e ?_ (fun s hs => hdec s ?_)
-    · rcases hc with rfl | hc
-      · decide
-      · exact hok c hc
-    · simp only [msgsOf, List.mem_flatMap]
-      exact ⟨e, he, hs⟩
-
+    refine sse_outcome dec W c e ?_ (fun s hs => hdec s (mem_msgsOf conv e s he hs))
+    rcases hc with rfl | hc
+    · decide
+    · exact hok c hc
 end http
 
 /-! ## legacy SSE -/
 section sse
-open Verif.Model.SseReq Verif.Props.C12
+open Verif.Model.SseReq
 
 theorem cleanText_of_cleanWire (t : List Char) (h : CleanWire t) : CleanText t := by
   obtain ⟨h1, _, h3, h4⟩ := h
@@ -286,13 +326,25 @@ theorem cleanText_of_cleanWire (t : List Char) (h : CleanWire t) : CleanText t :
   · intro c hc; rw [h3] at hc; cases hc; decide
   · intro c hc; rw [h4] at hc; cases hc; decide
 
+/-- every chunking of a rendered event stream: one action per endpoint / message event, in order -/
+theorem stream_rendered (evs : List (Ev × Bool)) (hclean : ∀ p ∈ evs, p.1.Clean)
+    (chunks : List (List Char)) (h : chunks.flatten = renderText evs) :
+    (runChunks PSt.init chunks).2 = evs.filterMap (fun p => p.1.act) := by
+  rw [runChunks_eq _ PSt.init_clean, h]
+  simp only [PSt.init, List.nil_append, renderText]
+  rw [splitLF_join _ (by
+    intro l hl
+    obtain ⟨p, hp, hlp⟩ := List.mem_flatMap.mp hl
+    exact evLines_noLF p.1 p.2 (hclean p hp) l hlp)]
+  exact stepLines_events _ rfl evs hclean
+
 /-- the event-stream parser hands over one message action per message of the conversation -/
 theorem sse_stream_acts (W : Wire σ μ) (pre : List (Ev × Bool)) (conv : List (Exchange σ)) (crlf : List Bool)
     (chunks : List (List Char)) (hpre : ∀ p ∈ pre, p.1.Clean)
     (hclean : ∀ s ∈ msgsOf conv, CleanWire (W.enc s)) (hc : chunks.flatten = sseText W pre conv crlf) :
     (runChunks PSt.init chunks).2
       = pre.filterMap (fun p => p.1.act) ++ (msgsOf conv).map (fun s => Act.message (W.enc s)) := by
-  rw [c12_stream_delivers_rendered (sseStream W pre conv crlf) ?_ chunks hc]
+  rw [stream_rendered (sseStream W pre conv crlf) ?_ chunks hc]
   · simp only [sseStream, List.filterMap_append]
     congr 1
     rw [filterMap_eq_flatMap, zipD_flatMap false _ _ (fun s => [Act.message (W.enc s)]), List.map_eq_flatMap]
@@ -415,7 +467,7 @@ end sse
 
 /-! ## the real codec -/
 section real
-open Verif.Model.Json Verif.Model.Rpc Verif.Props.C02 Verif.Props.C17
+open Verif.Model.Json Verif.Model.Rpc
 
 theorem emit_obj (m : Msg) : ∃ o, emit m = .obj o := by
   cases m with
@@ -472,7 +524,7 @@ theorem getLast_wrap (a b : Char) (l : List Char) : (a :: (l ++ [b])).getLast? =
 
 theorem cleanWire_emit (st : Style) (m : Msg) (hw : wfMsg m = true) : CleanWire (enc st (emit m)) := by
   obtain ⟨o, ho⟩ := emit_obj m
-  have hb := c02_wire_single_line st m hw
+  have hb := enc_noBreak st (emit m) (wf_emit m hw)
   refine ⟨hb.1, hb.2, ?_, ?_⟩
   · rw [ho]; simp [enc]
   · rw [ho]; simp only [enc]; exact getLast_wrap _ _ _
@@ -483,39 +535,31 @@ theorem chars_codes (t : List Char) : chars (codes t) = t := by
 theorem real_stdio_decodes (st : Style) (m : Msg) (hb : Built m) (hw : wfMsg m = true) :
     StdioDecodes realStdio (rpcWire st) m := by
   refine ⟨cleanWire_emit st m hw, ?_⟩
-  have hrt := c02_wire_roundtrip st m hb hw
+  have hp := parse_emit_of_ok m (built_ok hb)
   obtain ⟨o, ho⟩ := emit_obj m
-  simp only [rpcWire, realStdio, chars_codes]
-  cases hd : dec (enc st (emit m)) with
-  | none => simp [hd] at hrt
-  | some j =>
-    simp only [hd, Option.map_some, Option.some.injEq] at hrt
-    have hj : j = emit m := by
-      have := c17_dec_enc_any_style st (emit m) (wf_emit m hw)
-      rw [hd] at this; exact Option.some.inj this
-    subst hj
-    rw [ho] at hrt ⊢
-    simp only [hrt]
+  simp only [rpcWire, realStdio, chars_codes, dec_enc st (emit m) (wf_emit m hw)]
+  rw [ho] at hp ⊢
+  simp only [hp]
 
 theorem real_http_decodes (st : Style) (m : Msg) (hb : Built m) (hw : wfMsg m = true) (hr : ObjResult m) :
     HttpDecodes realHttp (rpcWire st) m := by
   obtain ⟨o, ho, hl, _⟩ := legacy_emit m (built_ok hb) hr
   have hwf := wf_emit m hw
-  have hde : dec (enc st (emit m)) = some (emit m) := c17_dec_enc_any_style st (emit m) hwf
+  have hde : dec (enc st (emit m)) = some (emit m) := dec_enc st (emit m) hwf
   refine ⟨cleanWire_emit st m hw, ?_, ?_⟩
   · simp only [rpcWire, realHttp, hde, Option.map_some]
     simp only [ho, classify, hl]
     rfl
   · have h2 : ('[' :: (enc st (emit m) ++ [']'])) = enc st (.arr [emit m]) := by simp [enc, encList]
     simp only [rpcWire, realHttp]
-    rw [h2, c17_dec_enc_any_style st (.arr [emit m]) (by simp [wf, wfList, hwf])]
+    rw [h2, dec_enc st (.arr [emit m]) (by simp [wf, wfList, hwf])]
     simp only [Option.map_some, ho, classify, classifyList, hl]
     rfl
 
 theorem real_sse_decodes (st : Style) (m : Msg) (hb : Built m) (hw : wfMsg m = true) (hr : ObjResult m) :
     SseDecodes realSse (rpcWire st) m := by
   obtain ⟨o, ho, hl, hk⟩ := legacy_emit m (built_ok hb) hr
-  have hde : dec (enc st (emit m)) = some (emit m) := c17_dec_enc_any_style st (emit m) (wf_emit m hw)
+  have hde : dec (enc st (emit m)) = some (emit m) := dec_enc st (emit m) (wf_emit m hw)
   refine ⟨cleanWire_emit st m hw, ?_⟩
   simp only [rpcWire, realSse, hde]
   simp only [ho, hl, Wire.sse, Option.isSome_some, Option.getD_some]
